@@ -584,8 +584,17 @@ func init() {
 			ev := map[string]any{"ev": "Did", "len": len(text), "parsed": o.parsed, "haskey": o.pub != nil, "panic": o.panicAt != "",
 				"prefix_ok": strings.HasPrefix(text, "did:key:"), "z": strings.HasPrefix(text, "did:key:z"), "canon_same": true, "text": text}
 			if o.parsed && o.pub != nil {
-				back, err := did.FromPubKey(o.pub)
-				ev["canon_same"] = err == nil && back == o.d
+				func() {
+					// a key that was handed out is used: Raw, FromPubKey - a panic there is recorded, not fatal
+					defer func() {
+						if r := recover(); r != nil {
+							ev["panic"], ev["canon_same"] = true, false
+						}
+					}()
+					_, _ = o.pub.Raw()
+					back, err := did.FromPubKey(o.pub)
+					ev["canon_same"] = err == nil && back == o.d
+				}()
 			}
 			emit(ev)
 		}
